@@ -612,6 +612,8 @@ struct Runner {
     if (max_n >= 10000) vf::label("n>=10000");
     if (merged_est) vf::nontrivial();
     // keyed findings last: the whole history was checked before the case is failed / excluded
+    // (one that is not listed as an open known finding goes first, so a listed one can never hide it)
+    for (const Deferred& d : deferred) if (!vf::known_keys().count(d.key)) vf::fail(d.id, d.msg, d.key);
     if (!deferred.empty()) vf::fail(deferred[0].id, deferred[0].msg, deferred[0].key);
   }
 };
@@ -649,6 +651,7 @@ template <typename Sk> void nan_rank_one(Sk sk, const Case& cs) {
   }
 }
 void prop_nanrank(const Case& cs) {
+  if (!vf::ctx().stats_path.empty()) vf::dump_stats(vf::ctx().stats_path, "running");  // the process may be stopped by UBSan below
   vf::own_randomness(static_cast<uint64_t>(cs.get("seed", 1)));
   const int fam = static_cast<int>(((cs.get("fam", 0) % 3) + 3) % 3);
   const uint16_t k = k_from(fam, static_cast<uint64_t>(cs.get("k0", 0)));
